@@ -321,6 +321,19 @@ def r81(ctx):
     ci = prog.cls(P)
     n = 0
     for fn in ci.methods.values():
+        # delivery written as a generator expression handed to a consumer that stops early
+        for call in [x for x in walk_shallow(fn) if isinstance(x, ast.Call) and isinstance(x.func, ast.Name) and x.args and isinstance(x.args[0], ast.GeneratorExp)]:
+            gen = call.args[0]
+            if not any(isinstance(c, ast.Call) and isinstance(c.func, ast.Attribute) and c.func.attr == 'notify' for c in ast.walk(gen)):
+                continue
+            n += 1
+            lazy = call.func.id in ('any', 'all', 'next')
+            ctx.ob('R8.1', f'{P}.{fn.name}:{call.func.id}', not lazy, sample=f'{P}.{fn.name}: delivery by {call.func.id}(<generator of notify calls>)')
+            if lazy:
+                ctx.finding('R8.1', f'{P}.{fn.name}:short-circuit', ci, call,
+                            f'the listeners are notified from inside `{call.func.id}(...)`, which stops consuming the generator at the first '
+                            f'{"true" if call.func.id == "any" else "false" if call.func.id == "all" else ""} result: when a listener\'s notify() returns such a value, the '
+                            f'listeners subscribed after it are not notified at all', where=f'{P}.{fn.name}')
         for loop in [x for x in walk_shallow(fn) if isinstance(x, (ast.For, ast.While))]:
             notifies = [c for s in loop.body for c in ast.walk(s) if isinstance(c, ast.Call) and isinstance(c.func, ast.Attribute) and c.func.attr == 'notify']
             if not notifies:
